@@ -299,3 +299,32 @@ for _pid in ("C03", "C14"):
     CHECKS[_pid]["technique"] += "; shape-level trace validation of all compatible shape pairs (Trace_Shapes.tla)"
 for _pid in ("C03", "C04", "C05", "C06", "C07", "C08", "C09", "C10", "C11"):
     CHECKS[_pid]["text"] += " After every application the caller's argument list must still hold the caller's tensor objects."
+
+# ---- round 13
+for _pid in ("C03", "C04", "C05", "C06", "C07", "C08", "C09", "C10", "C11"):
+    CHECKS[_pid]["text"] += (" Cold-start pass: the value cases of every operator are executed once more as the FIRST uses of the library in fresh "
+                             "processes (24 per operator, thorough 60): nodes and operands are prepared without touching the library and 2 x GOMAXPROCS "
+                             "goroutines are released from a barrier into GetOperator / Init / ValidateInputs / Apply; whatever is built lazily on first "
+                             "use is built under concurrent callers, and every result is judged by the case's expected outcome.")
+    CHECKS[_pid]["technique"] += "; cold-start replay in fresh processes"
+for _pid in ("C03", "C04", "C05", "C06", "C07", "C08", "C09", "C10", "C11"):
+    CHECKS[_pid]["text"] += (" A node whose attribute objects are edited in place between two uses (same AttributeProto objects, other numbers) "
+                             "yields the outcome of the numbers it holds now.")
+for _pid in ("C01", "C02", "C12", "C13", "C16", "C17", "C18"):
+    CHECKS[_pid]["text"] += (" Every guarded call runs under a time limit (240 s): a load or a Run that does not return is reported as neither a value "
+                             "nor an error.")
+CHECKS["C01"]["text"] += (" Every model case that skips an optional input is repeated on fresh models with a stray entry \"\" in the feed and with an "
+                          "initializer that carries no name (RunSem!GatherVals: an empty name is an absent input whatever the environment holds).")
+CHECKS["C04"]["text"] += " All-zero operands (A, B, C) under every (alpha, beta) pair and bias form."
+CHECKS["C06"]["text"] += " Extents of two decimal digits in pairs whose digit strings coincide ((1,12) and (11,2), ...)."
+CHECKS["C08"]["text"] += " Every Slice axes list of length 3 and 4 over rank-2 and rank-3 data, in both spellings of every axis."
+CHECKS["C11"]["text"] += " Refused casts also of rank-0 and rank-3 operands."
+CHECKS["C12"]["text"] += " Graphs of 2..34 weights of which none, all, every other or the last is malformed are loaded (the load returns, with an error)."
+CHECKS["C13"]["text"] += " A declared input that no node reads is part of the signature all the same."
+CHECKS["C14"]["text"] += " Every pair of ranks 0..12."
+CHECKS["C15"]["text"] += (" Two consecutive positions of one element type are also supplied as ONE tensor object: each position is judged by its own "
+                          "constraint.")
+CHECKS["C16"]["text"] += " The sample pool contains the all-zero sample; a Gemm with beta = 0.5 is among the models."
+CHECKS["C17"]["text"] += (" The callers of the odd Runs of the model with a defaulted input map that input's name to nil (not supplied): the default is "
+                          "used alone and beside other Runs alike.")
+CHECKS["C18"]["text"] += " Graphs with 2..34 initializers of every malformed kind: the load returns with an error."
